@@ -114,9 +114,28 @@ class Conn:
             return True
         return hirq.strip_refs(e.get('ty') or '') == T_IDSET
 
-    def is_counter_place(self, e):
+    def is_counter_place(self, e, B=None, depth=0):
+        """e denotes the ID counter: component 0 of the locked ID table - `<guard>.0`, `(*guard).0`, `p.0` with p a reference to
+        the (RequestId, HashSet<RequestId>) pair - or, when the body index B is given, a local that a pattern or a plain `let`
+        bound to that place (`let (last, set) = &mut *guard;`, `let r = &mut guard.0;`): an alias is the place it names."""
         e = peel(e)
-        return e['k'] == 'Field' and e['name'] == '0' and is_idguard(peel(e['e']).get('ty'))
+        if e['k'] == 'Field' and e['name'] == '0':
+            bt = hirq.strip_refs(peel(e['e']).get('ty') or '')
+            return is_idguard(bt) or bt == T_IDPAIR
+        if B is not None and depth < 8 and e['k'] == 'Path' and e.get('res') == 'local' and (e.get('ty') or '').startswith('&'):
+            d = B.defs.get(e['bind'])
+            if d is None or d.get('src') is None:
+                return False
+            src = peel(d['src'])
+            st = hirq.strip_refs(src.get('ty') or '')
+            pr = tuple(p for p in d['proj'])
+            if pr == (('tup', 0),) and (is_idguard(st) or st == T_IDPAIR):
+                return True
+            if pr == ():
+                return self.is_counter_place(src, B, depth + 1)
+            if pr and pr[-1] == ('tup', 0) and hirq.strip_refs(e.get('ty') or '') == 'i32' and T_IDPAIR in st:
+                return True         # taken out of a larger pattern that contains the pair: read as the counter (fails closed)
+        return False
 
     def is_map_place(self, e, which):
         """e is `<driver>.resultmap` / `.searchmap` (by field type)."""
